@@ -46,6 +46,14 @@ func (s scriptedSvc) Shutdown(ctx context.Context) error {
 		return errSvc
 	case 'p':
 		panic("service panic")
+	case 'q':
+		panic(42) // a panic value that is neither an error nor a string
+	case 'r':
+		panic(errSvc)
+	case 'u':
+		panic(struct{ a, b int }{1, 2})
+	case 'y':
+		panic(&scriptedSvc{})
 	case 'b':
 		// a service that uses up the whole shutdown timeout and then reports the context's error
 		<-ctx.Done()
@@ -217,6 +225,7 @@ type rwHarness struct {
 	entered chan struct{}
 	ctxs    []context.Context
 	consN   int
+	tick    int64 // logical time: every Refresh and every ErrorHandler call takes one second
 }
 
 var errRefresh = errors.New("refresh error")
@@ -227,7 +236,12 @@ var refreshErrs = []error{nil, errRefresh, context.Canceled, fmt.Errorf("refresh
 
 func (h *rwHarness) rec(s string) { h.mu.Lock(); h.trace = append(h.trace, s); h.mu.Unlock() }
 
-func (h *rwHarness) Now() time.Time { return time.Unix(1700000000, 0) }
+func (h *rwHarness) Now() time.Time {
+	h.mu.Lock()
+	defer h.mu.Unlock()
+
+	return time.Unix(1700000000+h.tick, 0)
+}
 func (h *rwHarness) After(d time.Duration) <-chan time.Time {
 	h.mu.Lock()
 	h.trace = append(h.trace, "A"+I(int(d/time.Millisecond)))
@@ -245,10 +259,16 @@ func (h *rwHarness) After(d time.Duration) <-chan time.Time {
 	return ch
 }
 
-func (h *rwHarness) UntilNext(_ time.Time) time.Duration {
+func (h *rwHarness) UntilNext(now time.Time) time.Duration {
 	h.mu.Lock()
 	defer h.mu.Unlock()
-	h.trace = append(h.trace, "U")
+	// the schedule is consulted AFTER the refresh (and its error handling): the time it is asked
+	// about is the current one, not one sampled before the refresh started
+	if now.Unix() != 1700000000+h.tick {
+		h.trace = append(h.trace, "U!stale-now")
+	} else {
+		h.trace = append(h.trace, "U")
+	}
 	var d time.Duration
 	if h.durIdx < len(h.durs) {
 		d = h.durs[h.durIdx]
@@ -281,6 +301,9 @@ func (h *rwHarness) Refresh(ctx context.Context) error {
 		h.entered <- struct{}{}
 		<-gate
 	}
+	h.mu.Lock()
+	h.tick++
+	h.mu.Unlock()
 	if out {
 		h.mu.Lock()
 		e := h.lastErr
@@ -301,6 +324,9 @@ func (h *rwHarness) Handle(ctx context.Context, err error) {
 	if err != want {
 		s += "!err"
 	}
+	h.mu.Lock()
+	h.tick++
+	h.mu.Unlock()
 	h.rec(s)
 }
 
@@ -517,6 +543,11 @@ func genC18(g *G) {
 		}
 	}
 	rec("")
+	// panics with values of every kind (string, int, error, struct, pointer) count alike
+	for _, outs := range []string{"q", "r", "u", "y", "nq", "qn", "nrn", "un", "ny", "qe", "nnu", "ynn"} {
+		g.Emit("sig", "t", outs)
+		g.Emit("sig", "hi", outs)
+	}
 	g.Emit("sig", "h", "nn")
 	g.Emit("sig", "-", "n")
 	// many services: a failure far down the list (index 64 and beyond) counts like any other
